@@ -16,6 +16,7 @@ mod rng;
 mod sp;
 mod store;
 mod xml;
+mod esc;
 
 use rng::Rng;
 use std::io::{BufRead, BufWriter, Write};
@@ -42,6 +43,7 @@ fn gen(family: &str, profile: &str, seed: u64, count: usize, size: usize) -> Vec
             "complete" | "karate" | "gnp" | "gnpstat" => gen::gen_case(&mut r, family, profile, size),
             "par" => par::gen_case(&mut r, profile, size).request(),
             "xml" => if profile == "roundtrip" { xml::gen_roundtrip(&mut r, size) } else { xml::gen_malformed(&mut r) },
+            "esc" => esc::gen(&mut r, profile),
             "mod" => comm::gen_mod(&mut r, profile, size).request(),
             "louv" => comm::gen_louv(&mut r, profile, size).request(),
             "clu" => clu::gen_case(&mut r, profile, size).request(),
@@ -80,6 +82,7 @@ fn run_line(line: &str) -> String {
         "degen" => guarded(move || degen::observe(&mut t)),
         "par" => { let c = par::Case::parse(&mut t); guarded(move || par::observe(&c)) }
         "xml" => guarded(move || xml::observe(&mut t)),
+        "esc" => guarded(move || esc::observe(&mut t)),
         "mod" => { let c = comm::ModCase::parse(&mut t); guarded(move || comm::observe_mod(&c)) }
         "louv" => {
             let c = comm::LouvCase::parse(&mut t);
@@ -104,6 +107,7 @@ fn candidates(line: &str) -> Vec<String> {
         "sp" => sp::candidates(&sp::Case::parse(&mut t)),
         "par" => par::candidates(&par::Case::parse(&mut t)),
         "xml" => xml::candidates(line),
+        "esc" => esc::candidates(line),
         "mod" => comm::candidates_mod(&comm::ModCase::parse(&mut t)),
         "louv" => comm::candidates_louv(&comm::LouvCase::parse(&mut t)),
         "clu" => clu::candidates(&clu::Case::parse(&mut t)),
